@@ -11,7 +11,18 @@ import (
 func init() {
 	props["C10"] = func(r *Report) {
 		c10(r)
-		r.Guard("C10.R5", "every lock taken is released on every exit: the relay's mutexes (a lock left held blocks the peer direction for ever)", func() { lockPairRule(r, "h2"); goCaptureRule(r, "h2"); goBlockRule(r, "h2") })
+		r.Guard("C10.R5", "every lock taken is released on every exit: the relay's mutexes (a lock left held blocks the peer direction for ever)", func() {
+			lockPairRule(r, "h2")
+			goCaptureRule(r, "h2")
+			goBlockRule(r, "h2")
+			noReentrantLockRule(r, "h2")
+			// the session stays under the connection's deadline: nothing in the core disarms it before
+			// the tunnel is handed to the relay (a client that stops reading would otherwise pin the
+			// session, its upstream connection and Proxy.Close for ever)
+			if lp := r.W.Fn("", "Proxy.handleLoop"); lp != nil {
+				deadlineSitesRule(r, lp)
+			}
+		})
 	}
 	floors["C10"] = map[string]int{"C10.R1": 1, "C10.R2": 2, "C10.R3": 1, "C10.R4": 5, "C10.R5": 1}
 }
